@@ -593,6 +593,10 @@ func (w *world) directOracle(before, after view, s snap, opDesc string) {
 					// recognised mechanism: a reset left a hole behind a front that starts at the state nonce
 					if isResetDesc(opDesc) && i > 0 {
 						sig = "reset-reinject-leaves-gap-in-pending"
+					} else if w.gapAfter[a] && i > 0 {
+						// second-order aftermath of that finding: the hole was trimmed away but left a stale virtual nonce
+						// (tracked in gapAfter); the sender's next submission at State().GetNonce re-opens the hole
+						sig = "reset-reinject-leaves-gap-in-pending"
 					}
 					w.c.Violate(sig, fmt.Sprintf("sender %d pending nonces are not the run starting at the state nonce %d: position %d has nonce %d (after %s)", a, want, i, t.nonce, opDesc), w.replay(opDesc))
 				}
